@@ -140,6 +140,13 @@ def structure(trace):
                         cur_t['ele_errors'].append((p[1], unhex(p[3]) if len(p) > 3 else None))
                 else:
                     cur_t[phase if phase in ('hdr', 'trl') else 'hdr'] += 1
+                    # an element error filed while the ST (or SE) line is current names an element of THAT line
+                    if k == 'e' and len(p) > 4 and p[4].startswith('S'):
+                        rd = unhex(p[4]) or ''
+                        want_sid = 'ST' if phase != 'trl' else 'SE'
+                        sid_of = rd.rstrip('0123456789-')
+                        if sid_of and sid_of.isalnum() and sid_of != want_sid and sid_of not in ('ISA', 'GS', 'GE', 'IEA', 'ST', 'SE', 'TA1'):
+                            cur_t.setdefault('misfiled', []).append((rd, want_sid))
             elif cur_g is not None and k in ('g', 's', 'e', 't'):
                 cur_g['errors'] += 1
                 if k in ('s', 'e'):
@@ -235,6 +242,13 @@ def run(ctx, report):
         if not any(ln.startswith('I,') for ln in trace):
             report.count('oracle:not-an-interchange')
             continue
+        # 0. an element error is filed under the segment it belongs to: none under the ST / SE line that names an element of a body segment
+        for g_ in groups:
+            for t_ in g_['sets']:
+                for (rd, want_sid) in t_.get('misfiled', [])[:1]:
+                    report.fail('C05:element-error-filed-under-the-%s-line:%s' % (want_sid, rd.rstrip('0123456789-')),
+                                'an error for element %s was filed while the %s line of set %r was the current node: it counts for no body segment and is '
+                                'not itemised' % (rd, want_sid, t_['st']), inp)
         # 1. verdict <-> errors
         if (v == 'V:True') != (total == 0):
             why = ''
